@@ -30,6 +30,12 @@
 (*  tiny               per point: TRUE for a coordinate eps*(dy,dx) a hair *)
 (*                     away from the centre (eps far below the unit); its  *)
 (*                     pt entry is the integer direction (dy,dx)           *)
+(*  gafter             the caller's grid object read again after the call: *)
+(*                     k where position k still holds the coordinate the   *)
+(*                     grid was built with (exact equality), -2 otherwise  *)
+(*  hid, step          history records: several decorated calls on ONE     *)
+(*                     grid object; every call is judged against the       *)
+(*                     coordinates the grid was BUILT with (0 = single)    *)
 (*  depth, flag, tcount   transform: nesting depth, is_transformed passed  *)
 (*                     by the caller, number of changes of frame performed *)
 (***************************************************************************)
@@ -44,6 +50,10 @@ Cl(n, b) == [n |-> n, ok |-> b]
 NIn(r) == Len(r.u)
 IsPairSeq(s) == \A k \in DOMAIN s : Len(s[k]) = 2
 Pair(a) == << a[1], a[2] >>
+
+\* ---- the input grid is an input: whatever the call hands to the function, the caller's object still holds the
+\* ---- coordinates it was built with (so the next decorated call on it pairs entry k with coordinate k again)
+GridUnchanged(r) == Cl("input-grid-unchanged", r.gafter = Iota(NIn(r)))
 
 \* ---- clauses shared by the wrapping decorators -----------------------------
 CalledOnce(r) == Cl("function-body-runs-once", r.calls = 1)
@@ -118,8 +128,8 @@ TransformClause(r) == Cl("frame-changed-exactly-once-unless-caller-did", r.tcoun
 Clauses(r) ==
     IF ~ InDomain(r.api, r.gk, r.rk) THEN << Cl("call-in-domain", FALSE) >>
     ELSE IF r.raised THEN << Cl("call-returns", FALSE) >>
-    ELSE
-    CASE r.api \in {"to_array", "to_grid", "to_vector_yx"} /\ r.gk \in {"g2d", "irr"} ->
+    ELSE << GridUnchanged(r) >> \o
+    (CASE r.api \in {"to_array", "to_grid", "to_vector_yx"} /\ r.gk \in {"g2d", "irr"} ->
            << ReceivedInput(r) >> \o WrapCommon(r) \o Wrap2D(r) \o WrapVec(r)
       [] r.api \in {"to_array", "to_grid"} /\ r.gk = "g1d" ->
            WrapCommon(r) \o << Line1DClause(r) >>
@@ -135,7 +145,7 @@ Clauses(r) ==
            << CalledOnce(r) >> \o RelocClauses(r)
       [] r.api \in {"stack_array", "stack_grid"} ->
            WrapCommon(r) \o Wrap2D(r) \o << TransformClause(r) >> \o RelocClauses(r)
-      [] OTHER -> << Cl("unknown-api", FALSE) >>
+      [] OTHER -> << Cl("unknown-api", FALSE) >>)
 
 Failed(r) == SelectSeq(Clauses(r), LAMBDA c : ~ c.ok)
 FailedNames(r) == { Failed(r)[j].n : j \in DOMAIN Failed(r) }
@@ -145,6 +155,7 @@ FailedNames(r) == { Failed(r)[j].n : j \in DOMAIN Failed(r) }
 Sig(r) ==
     IF FailedNames(r) = {"coordinate-at-the-centre-moved-to-exactly-the-minimum"} THEN "PointAtCentre"
     ELSE IF FailedNames(r) = {"coordinate-a-hair-from-the-centre-moved-along-its-ray-to-exactly-the-minimum"} THEN "PointNearCentre"
+    ELSE IF FailedNames(r) = {"input-grid-unchanged"} THEN "InputGridOverwritten"
     ELSE r.api \o "/" \o r.gk
 
 Want(r) ==
@@ -158,7 +169,7 @@ Want(r) ==
     ELSE [kind |-> ContainerKind(r.api, r.gk, r.rk), elements |-> Elements(r.lst), entries |-> r.rid]
 
 TraceInit == /\ i = 1
-             /\ inst = << >> /\ phase = "trace" /\ obs = << >>
+             /\ inst = << >> /\ phase = "trace" /\ obs = << >> /\ grid = << >> /\ hist = << >>
 
 TraceNext ==
     /\ i <= Len(Trace)
